@@ -3,6 +3,7 @@
 package yqlib
 
 import (
+	"errors"
 	"io"
 
 	"github.com/goccy/go-json"
@@ -10,6 +11,23 @@ import (
 
 type jsonDecoder struct {
 	decoder json.Decoder
+	reader  *readErrorKeeper
+}
+
+// readErrorKeeper remembers the first read error other than io.EOF.
+// The json stream decoder treats any read error like the end of the
+// input, which would turn an I/O error into a silently truncated result.
+type readErrorKeeper struct {
+	reader io.Reader
+	err    error
+}
+
+func (r *readErrorKeeper) Read(p []byte) (int, error) {
+	n, err := r.reader.Read(p)
+	if err != nil && !errors.Is(err, io.EOF) && r.err == nil {
+		r.err = err
+	}
+	return n, err
 }
 
 func NewJSONDecoder() Decoder {
@@ -17,7 +35,8 @@ func NewJSONDecoder() Decoder {
 }
 
 func (dec *jsonDecoder) Init(reader io.Reader) error {
-	dec.decoder = *json.NewDecoder(reader)
+	dec.reader = &readErrorKeeper{reader: reader}
+	dec.decoder = *json.NewDecoder(dec.reader)
 	return nil
 }
 
@@ -25,6 +44,9 @@ func (dec *jsonDecoder) Decode() (*CandidateNode, error) {
 
 	var dataBucket CandidateNode
 	err := dec.decoder.Decode(&dataBucket)
+	if dec.reader != nil && dec.reader.err != nil {
+		return nil, dec.reader.err
+	}
 	if err != nil {
 		return nil, err
 	}
